@@ -167,6 +167,30 @@ let kv (line : string) : (string * string) list =
 let run_line (line : string) : string =
   let m = kv line in
   let get k = List.assoc_opt k m in
+  let rec has_float_or_tag (v : value) : bool =
+    match v with
+    | VFloat _ | VTag _ -> true
+    | VArray l -> List.exists has_float_or_tag l
+    | VMap es -> List.exists (fun (k, w) -> has_float_or_tag k || has_float_or_tag w) es
+    | _ -> false
+  in
+  match get "rec", get "ev", get "eb" with
+  | Some id, _, _ ->
+      let inp = bytes_of_hex (match get "b" with Some b -> b | None -> "-") in
+      let c, re = run_record (n_of_int (int_of_string id)) inp in
+      (match int_of_n c with
+       | 0 -> "rec err"
+       | 1 -> Printf.sprintf "rec ok reenc=%s" (if re = inp then "same" else hex_of_bytes re)
+       | _ -> "rec model-cannot-reencode")
+  | _, Some vs, _ ->
+      let v = parse_value vs in
+      if has_float_or_tag v then "edict enc=E"
+      else (match enc v with Ok b -> Printf.sprintf "edict enc=%s" (hex_of_bytes b) | Err _ -> "edict enc=E")
+  | _, _, Some bh ->
+      (match decode (bytes_of_hex bh) with
+       | Ok v when not (has_float_or_tag v) -> Printf.sprintf "edict dec=%s" (text_of_bytes (show v))
+       | _ -> "edict dec=E")
+  | None, None, None ->
   match get "v", get "b", get "exh", get "f16tab", get "fl", get "w32" with
   | Some vs, _, _, _, _, _ ->
       let ((ec, eb), (dc, db)), (_nc, _nb) = run_value (parse_value vs) in
